@@ -5,12 +5,12 @@ import "time"
 func init() {
 	registry = append(registry, property{id: "C13", parts: []part{
 		{name: "faults", pkg: "./c13", run: "^TestFaults$", bins: []string{"fschild"},
-			shards: [2]int{8, 16}, checks: [2]int{6, 60}, timeout: [2]time.Duration{12 * min, 30 * min}},
+			shards: [2]int{8, 16}, checks: [2]int{6, 60}, timeout: [2]time.Duration{12 * min, 60 * min}},
 		{name: "concurrent", pkg: "./c13", run: "^TestConcurrent$", bins: []string{"fschild"},
-			shards: [2]int{4, 8}, checks: [2]int{40, 1500}, timeout: [2]time.Duration{12 * min, 30 * min},
+			shards: [2]int{4, 8}, checks: [2]int{40, 1500}, timeout: [2]time.Duration{12 * min, 60 * min},
 			env: [2][]string{{"VERIF_ROUNDS=3"}, {"VERIF_ROUNDS=6"}}},
 		{name: "race", pkg: "./c13", run: "^TestConcurrentRace$", bins: []string{"fschild-race"},
-			shards: [2]int{2, 8}, checks: [2]int{60, 400}, timeout: [2]time.Duration{12 * min, 30 * min},
+			shards: [2]int{2, 8}, checks: [2]int{60, 400}, timeout: [2]time.Duration{12 * min, 60 * min},
 			env: [2][]string{{"VERIF_RACE_ROUNDS=30"}, {"VERIF_RACE_ROUNDS=100"}}},
 	}})
 }
